@@ -678,7 +678,7 @@ def run(ctx):
     drv = C.drv_path() if drv_ok else None
     n, nops = (450, 60) if ctx.tier == "quick" else (3000, 120)
     explore(ctx, h, drv, n, nops, "main")
-    if ctx.proof_broken or ctx.corr_broken:
+    if (ctx.proof_broken or ctx.corr_broken) and not ctx.violations:
         ctx.log("obligation or correspondence broken: widening the search for a failing input")
         for i in range(3):
             explore(ctx, h, None, 400, 80, "search%d" % i)
